@@ -16,9 +16,9 @@ NA = {
 SIM = "deterministic simulation with fault injection: "
 TB = "Trusts the replica's field/group arithmetic and pairing value (C01, C02, C04, C05, C06: not applicable here) as the base of the reference models, which use reference paths (double-and-add, generic square-and-multiply), never the fast paths under judgement. Seeded sampling: a clean batch is evidence, not proof. x86-64 only (AArch64/ARMv6-M back ends not executed)."
 CLAIMED = {
- "C03": ("exploration", SIM + "five builds of the library loaded side by side as replicas and driven in lock-step (register machine over the primitives with boundary pair constructors; whole scheme histories with one random stream); run-time dispatch pointers flipped at seeded yield points inside operations; event logs must be bit-identical",
-         "Every primitive op and every scheme history is applied with identical inputs to x86-64 asm with BMI2/ADX dispatch, with baseline dispatch, the static -mbmi2 build, portable 64-bit-word and portable 32-bit-word C++; all written registers, carry/borrow flags, marshalled bytes and random-stream consumption are compared. 4 of the 6 configurations the property names are executed.",
-         "Agreement of all replicas on a wrong value is C02's business and is not detected. AArch64 and ARMv6-M assembly cannot run in this sandbox.", "5/C03", True),
+ "C03": ("exploration", SIM + "six builds of the library loaded side by side as replicas, plus the AArch64 and ARMv6-M assembly sources run under the simulator's own interpreter as two more, driven in lock-step (register machine over the primitives with boundary constructors, including operands that steer the compare-and-subtract tail of reduction/multiplication/squaring to every depth; whole scheme histories with one random stream); run-time dispatch pointers flipped at seeded yield points inside operations; event logs must be bit-identical",
+         "Every primitive op is applied with identical inputs to x86-64 asm with BMI2/ADX dispatch, with baseline dispatch, the static -mbmi2 build, the g++ build, portable 64-bit-word and portable 32-bit-word C++, and to the eight hand-written routines of the AArch64 and of the ARMv6-M back end executed by an interpreter of their source text (with a monitor for out-of-operand memory accesses, unaligned accesses, non-Thumb-1 instruction forms and unrestored callee-saved registers); all written registers and carry/borrow flags are compared. Whole scheme histories (marshalled bytes, random-stream consumption) are compared on the six native builds. 4 of the 6 configurations run natively, the other 2 at the level of their assembly routines only.",
+         "Agreement of all replicas on a wrong value is C02's business and is not detected. The AArch64/ARMv6-M routines are judged through an interpreter written for this task (trusted: its instruction semantics, incl. the pre-UAL Thumb flag rules as GNU as assembles them); their C++ glue headers and everything above the eight routines are represented by the portable build of the same word size.", "5/C03 and 15.1-15.2", True),
  "C07": ("exploration", SIM + "target-group exponentiation driven by the simulator-owned random stream under stream faults (rejection storms, digits at |x|-1 and |x|, tuples recombining to r-1, r, r+1), judged by M-sample and by generic exponentiation; boundary exponents",
          "Claimed for the clause that names the byte stream: gt_multiply_random / random_gt must return the exponent M-sample derives from the recorded request sequence and base^y by two independent paths; fixed-exponent clauses are checked on stream-derived and listed boundary exponents (pure-function part, said so in DESIGN.md).", TB, "5/C07", True),
  "C08": ("exploration", SIM + "histories over long-lived pair-record arrays that are never re-initialised (slices, re-pointing, re-preparing, identities, shared prepared points), product compared with the product of separately computed single pairings",
@@ -48,8 +48,8 @@ CLAIMED = {
          "Layout, alignment, member offsets, coefficient count and exported constants compared in 64- and 32-bit-word, asm and portable replicas; every C function the adapter reaches returns what the C++ operation returns on all arguments the scenarios generate (C API symbols the adapter does not reach are listed in the evidence).",
          "The ABI table is a compile-time fact reported at run time; AArch64/ARMv6-M not covered.", "5/C19", True),
  "C20": ("exploration", SIM + "2-6 real caller threads under a serialising seeded scheduler preempting at a guarded yield hook inside every field multiplication and at the random/hash callbacks; M-solo refinement; mprotect write trap on the replicas' writable image and on shared inputs; libc allocation trap; link-surface audit of the static library built the shipped way (static, not simulation)",
-         "Concurrent execution on shared read-only inputs and distinct outputs must give exactly the outputs of running each script alone; any write to library static storage or to a shared input after load is a deterministic SIGSEGV; the archive's undefined symbols must be memory primitives and compiler arithmetic helpers in five build configurations (clang/gcc x asm/portable x 64/32-bit words).",
-         "Data races that leave results intact and touch only caller memory the harness did not mark shared are invisible (a serialising scheduler gives TSan nothing to see). Writable-but-never-written static storage is reported in the evidence, not as a violation.", "5/C20", True),
+         "Concurrent execution on shared read-only inputs and distinct outputs must give exactly the outputs of running each script alone; any write to library static storage or to a shared input (objects reloaded from durable bytes, attribute lists in the library's own format) after load is a deterministic SIGSEGV; in WKD-IBE histories a const input list that differs after a call is a violation; failing schedules are reported as an explicit, minimised list of preemption decisions; the archive's undefined symbols must be memory primitives and compiler arithmetic helpers in five build configurations (clang/gcc x asm/portable x 64/32-bit words).",
+         "Data races that leave results intact and touch only caller memory the harness did not mark shared are invisible (a serialising scheduler gives TSan nothing to see). Writable-but-never-written static storage is reported in the evidence, not as a violation.", "5/C20 and 15.3-15.4", True),
 }
 
 def main():
